@@ -142,6 +142,27 @@ def _const(t):
         return t[1]
     if t[0] == "cast" and t[1] == "int2int":
         return _const(t[3])
+    if t[0] == "bin" and len(t) == 4:
+        a, b = _const(t[2]), _const(t[3])
+        if a is None or b is None:
+            return None
+        op = t[1]
+        if op in ("Add", "AddUnchecked"):
+            return a + b
+        if op in ("Sub", "SubUnchecked") and a >= b:
+            return a - b
+        if op == "Mul":
+            return a * b
+        if op == "BitXor":
+            return a ^ b
+        if op == "BitAnd":
+            return a & b
+        if op == "BitOr":
+            return a | b
+        if op == "Shl":
+            return a << b
+        if op == "Shr":
+            return a >> b
     return None
 
 
